@@ -525,3 +525,25 @@ contract('gnpy.topology.spectrum_assignment.select_candidate', name='gnpy.topolo
          raises={'ServiceError': "policy != 'first_fit' and policy != 'last_fit'"},
          ensures=[('the_candidate', 'result[0] == candidates[0][0] and result[1] == candidates[0][1] and result[2] == candidates[0][2]')],
          use_at_calls=False, modifies=[])
+
+# ---- two fully user-fixed (N, M) entries: each is used as given or the request is not served (remaining > 0 => blocked by
+# pth_assign_spectrum); order_slots / restore_order are inlined (symbolic sort of two entries)
+RQ2 = obj('<ns>', N=lst(integer(), integer()), M=lst(integer(), integer()), request_id=string())
+contract('gnpy.topology.spectrum_assignment.compute_n_m',
+         name='gnpy.topology.spectrum_assignment.compute_n_m[two fixed (N, M) entries, path over OMS [0]]', props=['C14'],
+         params={'required_m': integer(), 'rq': RQ2, 'path_oms': const([0]), 'oms_list': lst(OMSB('a'), OMSB('b')),
+                 'per_channel_m': integer(), 'policy': const('first_fit')}, spec=SPEC_AGG,
+         inline_callees=['gnpy.core.utils.order_slots', 'gnpy.core.utils.restore_order'],
+         requires=_REQ2 + [('guard_a', f'GB({_A})'), ('guard_consistent', f'CONSIST({_A})'), ('pcm', 'per_channel_m > 0'), ('required', 'required_m > 0'),
+                           ('fixed_m_positive', 'rq.M[0] > 0 and rq.M[1] > 0'),
+                           ('fixed_n_on_grid', f'{_A}.n_min <= rq.N[0] and rq.N[0] <= {_A}.n_max and {_A}.n_min <= rq.N[1] and rq.N[1] <= {_A}.n_max')],
+         ensures=[('shape', 'len(result[0]) == len(result[1]) and len(result[0]) <= 2'),
+                  # a user-fixed entry that cannot be used as given leaves the request unserved, whatever the others carry
+                  ('refused_entry_means_not_served', 'implies(len(result[0]) < 2, result[2] > 0)'),
+                  ('both_used_verbatim', 'implies(len(result[0]) == 2, result[0][0] == rq.N[0] and result[0][1] == rq.N[1] and '
+                                         'result[1][0] == rq.M[0] and result[1][1] == rq.M[1] and result[2] == required_m - rq.M[0] - rq.M[1])'),
+                  # two accepted slots of one request never overlap
+                  ('disjoint', 'implies(len(result[0]) == 2, rq.N[0] + rq.M[0] - 1 < rq.N[1] - rq.M[1] or rq.N[1] + rq.M[1] - 1 < rq.N[0] - rq.M[0])')],
+         use_at_calls=False, modifies=[], max_paths=3000,
+         hints=['rq.N[0] - rq.M[0] - oms_list[0].spectrum_bitmap.n_min', 'rq.N[1] - rq.M[1] - oms_list[0].spectrum_bitmap.n_min',
+                'rq.N[0] - oms_list[0].spectrum_bitmap.n_min', 'rq.N[1] - oms_list[0].spectrum_bitmap.n_min'])
